@@ -270,7 +270,18 @@ let fam_c05 tier r =
         [ { default_options with o_parent = true }; { default_options with o_in = rd 2 }; default_options;
           { default_options with o_out = rd 2; o_err = rd 4 }; { default_options with o_err = rd ~f:4 6 }; { default_options with o_out = rd ~f:5 6 } ])
       [ [ 1 ]; [ 2 ]; [ 3 ]; [ 1; 2; 3 ]; [ 4 ] ] in
+  (* whole run / run_ex calls that are refused (fork mode, conflicting shorthands, no argv): whatever
+     was allocated on the way to the refusal is released *)
+  let refused_runs = List.concat_map (fun (o : options) ->
+      List.concat_map (fun av ->
+          let w = world_with ~fds:user_fds ~files:user_files [ [ a_write 1 3; a_exit 0 ] ] in
+          [ { sc_world = w; sc_ops = [ ORun (av, o, nat_of_int 3000); ORun (av, o, nat_of_int 3000) ] };
+            { sc_world = w; sc_ops = [ ORunEx (av, o, [], [], nat_of_int 3000); ORunEx (av, o, zl [ 0; 5 ], [], nat_of_int 3000) ] } ])
+        [ c 0; None; Some [] ])
+      [ { default_options with o_fork = true }; { default_options with o_parent = true; o_discard = true };
+        { default_options with o_path = Some (s "/tmp/g"); o_file = z 4 }; default_options ] in
   [ { name = "C05/single-faults"; exhaustive = true; scs = fault_family tier post };
+    { name = "C05/refused-run-calls"; exhaustive = true; scs = refused_runs };
     { name = "C05/closed-FILE-streams"; exhaustive = true; scs = closed_file };
     { name = "C05/fault-pairs"; exhaustive = false; scs = fault_pairs r (if tier = "quick" then 200 else 10000) post };
     { name = "C05/random-histories"; exhaustive = false;
